@@ -222,6 +222,7 @@ type c24World struct {
 	violated  bool
 	ops       int
 	setsHeld  int64
+	settles   []int64 // logical times at which the scheduler was seen settled (nothing in transit)
 }
 
 type c24Exec struct{ w *c24World }
@@ -318,6 +319,7 @@ func (w *c24World) settle() string {
 			continue
 		}
 		if d.loopParked {
+			w.settles = append(w.settles, w.stamp.Add(1))
 			return "parked"
 		}
 		// The loop goroutine is busy. It is at a fixpoint iff a complete pass ran while every
@@ -340,10 +342,12 @@ func (w *c24World) settle() string {
 		d2 := c24TakeDump()
 		dispAfter := w.hk.dispatch.Load()
 		if d2.loopSeen && d2.loopParked && d2.transit == 0 && d2.idle+d2.held == w.workers && d2.held == held {
+			w.settles = append(w.settles, w.stamp.Add(1))
 			return "parked"
 		}
 		if ok && d2.transit == 0 && d2.idle == d.idle && d2.held == d.held && d2.held == held && dispAfter == dispBefore {
 			w.r.Event("settled_while_loop_retries_busy_worker", 1)
+			w.settles = append(w.settles, w.stamp.Add(1))
 			return "spin"
 		}
 	}
@@ -402,6 +406,20 @@ func (w *c24World) process(full bool) {
 		if !live && dstamp < t.relStamp {
 			live = true // dispatched before Release returned: the unavoidable in-flight hand-off
 			w.r.Event("run_dispatched_before_release_returned", 1)
+			// ... which is over once the scheduler has been seen settled (loop parked or retrying,
+			// every worker idle or inside a held executor, nothing in transit): a hand-off goes to
+			// a worker that takes the run at once. A run that starts after such a point was kept
+			// somewhere Release could not reach.
+			for _, st := range w.settles {
+				if st > t.relStamp && st < e.stamp {
+					live = false
+					w.fail("run_after_release", "release_then_settled", fmt.Sprintf("task %d: run for %s started after Release(%d) had returned and the scheduler had settled in between (it was handed over before the Release, but not to a worker that was free to run it)", e.id, c24T(e.sf), e.id))
+					break
+				}
+			}
+			if !live {
+				continue
+			}
 		}
 		switch {
 		case !live:
